@@ -244,7 +244,8 @@ func (a *Args) String() string {
 		}
 	}
 	if a.Elided {
-		v = append(v, "...")
+		// Never append into the backing array of a.Processed.
+		v = append(v[:len(v):len(v)], "...")
 	}
 	return strings.Join(v, ", ")
 }
